@@ -50,6 +50,7 @@ type evMethod struct {
 	A       []ssa.CallInstruction
 	P       []ssa.CallInstruction
 	L       []ssa.CallInstruction
+	scope   []*ssa.Function // the method and the private helpers holding its apply call
 }
 
 // isListenerCall: a dynamic call of an element of the resource's listener
@@ -99,6 +100,7 @@ func c08(r *core.Run) {
 		c, ok := in.(ssa.CallInstruction)
 		return ok && isListenerCall(c)
 	})
+	var mayApply map[*ssa.Function]bool
 	isApplyCall := func(in ssa.Instruction) bool {
 		c, ok := in.(ssa.CallInstruction)
 		if !ok || !core.IsDynamic(c) {
@@ -107,6 +109,7 @@ func c08(r *core.Run) {
 		f, ok := core.LoadedField(c.Common().Value)
 		return ok && f.Struct == "Handler" && strings.HasPrefix(f.Name, "Apply")
 	}
+	mayApply = mayExec(root, isApplyCall)
 	hT := p.NamedType("", "Handler")
 	if hT == nil {
 		r.Unres("O1", "Handler", "type not found")
@@ -130,22 +133,32 @@ func c08(r *core.Run) {
 			m.hasAppl = true
 			m.applyF = core.Field{Struct: "Handler", Name: "Apply" + stem}
 		}
-		for _, c := range core.Calls(fn) {
-			if core.IsDynamic(c) {
-				if isApplyCall(c) {
-					m.A = append(m.A, c)
-				}
-				if isListenerCall(c) {
-					m.L = append(m.L, c)
-				}
+		// the method and the private helpers that hold its apply call (analysed in place)
+		scope := []*ssa.Function{fn}
+		for _, h := range p.Helpers(fn) {
+			if h != fn && mayApply[h] && !mp[h] {
+				scope = append(scope, h)
 			}
-			if cal := c.Common().StaticCallee(); cal != nil && !core.IsGo(c) {
-				switch {
-				case mp[cal]:
-					m.P = append(m.P, c)
-				case mayNotify[cal] && cal.Pkg == fn.Pkg:
-					// a helper that runs the listeners (e.g. notifyListeners(ev))
-					m.L = append(m.L, c)
+		}
+		m.scope = scope
+		for _, f2 := range scope {
+			for _, c := range core.Calls(f2) {
+				if core.IsDynamic(c) {
+					if isApplyCall(c) {
+						m.A = append(m.A, c)
+					}
+					if isListenerCall(c) {
+						m.L = append(m.L, c)
+					}
+				}
+				if cal := c.Common().StaticCallee(); cal != nil && !core.IsGo(c) {
+					switch {
+					case mp[cal]:
+						m.P = append(m.P, c)
+					case mayNotify[cal] && cal.Pkg == fn.Pkg:
+						// a helper that runs the listeners (e.g. notifyListeners(ev))
+						m.L = append(m.L, c)
+					}
 				}
 			}
 		}
@@ -195,7 +208,11 @@ func c08(r *core.Run) {
 		for _, c := range m.P {
 			isP[c] = true
 		}
-		fl := &core.Flow{Fn: fn, Entry: core.StateSet(0).Add(0)}
+		inScope := map[*ssa.Function]bool{}
+		for _, f2 := range m.scope {
+			inScope[f2] = true
+		}
+		fl := &core.Flow{Fn: fn, Entry: core.StateSet(0).Add(0), Tags: true, Inline: func(cal *ssa.Function) bool { return inScope[cal] && cal != fn }}
 		fl.Transfer = func(in ssa.Instruction, s int) core.StateSet {
 			if isA[in] {
 				return core.StateSet(0).Add(s | bApplied)
@@ -239,7 +256,7 @@ func c08(r *core.Run) {
 				"every path to the publish ran the apply handler or took the no-handler edge", "a path reaches the publish before the apply handler ran (publish-before-apply: a failing apply could no longer suppress the event)")
 			r.Check(!twice, "O1", fname, "at-most-one-publish:"+core.FuncName(c.Common().StaticCallee()), p.InstrPos(c), "no earlier publish on any path", "two publishes on one path")
 			for _, a := range m.A {
-				r.Check(!core.Reaches(c, a), "O1", fname, "no-path-publish->apply", p.InstrPos(c), "apply is never reached after the publish", "the apply handler can run after the publish")
+				r.Check(!p.ReachesIn(fn, c, a), "O1", fname, "no-path-publish->apply", p.InstrPos(c), "apply is never reached after the publish", "the apply handler can run after the publish")
 			}
 		}
 		// ---- O2 ----
@@ -312,44 +329,70 @@ func c08(r *core.Run) {
 			}
 		}
 		if m.stem == "Change" {
-			// empty argument and empty revert map
+			// empty argument and empty revert map: a typestate "on a nothing-changed path", set on the
+			// len==0 edge of the argument / of the apply handler's revert map, must never reach a
+			// publish or a listener (helpers holding the apply call are analysed in place)
 			var param ssa.Value
 			for _, prm := range fn.Params[1:] {
 				if _, ok := prm.Type().Underlying().(*types.Map); ok {
 					param = prm
 				}
 			}
-			nEmptyArg, nEmptyRev := 0, 0
-			for _, b := range fn.Blocks {
-				iff, ok := b.Instrs[len(b.Instrs)-1].(*ssa.If)
-				if !ok {
-					continue
-				}
+			kindOf := func(iff *ssa.If) (string, int) {
 				ci := core.Cond(iff.Cond)
 				if ci.Kind != "lencmp" || ci.Const == nil || ci.Const.ExactString() != "0" || ci.Op != token.EQL {
-					continue
+					return "", 0
 				}
 				succ := 0
 				if ci.Negate {
 					succ = 1
 				}
-				isArg := ci.X == param
-				isRev := false
+				if ci.X == param {
+					return "empty-argument", succ
+				}
 				if ex, ok := ci.X.(*ssa.Extract); ok && ex.Index == 0 && len(m.A) == 1 && ex.Tuple == m.A[0].Value() {
-					isRev = true
+					return "empty-revert-map", succ
 				}
-				if !isArg && !isRev {
-					continue
+				return "", 0
+			}
+			nEmptyArg, nEmptyRev := 0, 0
+			for _, f2 := range m.scope {
+				for _, b := range f2.Blocks {
+					iff, ok := b.Instrs[len(b.Instrs)-1].(*ssa.If)
+					if !ok {
+						continue
+					}
+					what, succ := kindOf(iff)
+					if what == "" {
+						continue
+					}
+					if what == "empty-argument" {
+						nEmptyArg++
+					} else {
+						nEmptyRev++
+					}
+					// flow: state 1 = passed this edge
+					fl2 := &core.Flow{Fn: fn, Entry: core.StateSet(0).Add(0), Tags: true, Inline: func(cal *ssa.Function) bool { return inScope[cal] && cal != fn }}
+					theIf, theSucc := iff, succ
+					fl2.Branch = func(i2 *ssa.If, sc int, st int) (int, bool) {
+						if i2 == theIf && sc == theSucc {
+							return 1, true
+						}
+						return st, true
+					}
+					res2 := fl2.Run()
+					noPL, why := true, ""
+					for _, f3 := range m.scope {
+						for _, bb := range f3.Blocks {
+							for _, in := range bb.Instrs {
+								if isPL(in) && res2.Before[in].Has(1) {
+									noPL, why = false, "reaches the publish/listener call at "+p.InstrPos(in)
+								}
+							}
+						}
+					}
+					r.Check(noPL, "O3", fname, what+"-edge->no-publish", p.InstrPos(iff), "the nothing-changed edge reaches no publish and no listener", "the nothing-changed edge still publishes or notifies: "+why)
 				}
-				noPL, why := edgeAvoids(b.Succs[succ], isPL)
-				what := "empty-argument"
-				if isRev {
-					what = "empty-revert-map"
-					nEmptyRev++
-				} else {
-					nEmptyArg++
-				}
-				r.Check(noPL, "O3", fname, what+"-edge->no-publish", p.InstrPos(iff), "the nothing-changed edge reaches no publish and no listener", "the nothing-changed edge still publishes or notifies: "+why)
 			}
 			r.Check(nEmptyArg > 0, "O3", fname, "tests-empty-argument", p.Pos(fn.Pos()), "an empty change map is detected", "an empty change map is not detected: an empty change event is published")
 			r.Check(nEmptyRev > 0, "O3", fname, "tests-empty-revert-map", p.Pos(fn.Pos()), "an apply handler reporting 'nothing changed' (empty revert map) is detected", "an apply handler reporting that nothing changed is ignored: an event is published for a change that changes nothing")
@@ -487,7 +530,7 @@ func c08Validity(r *core.Run, m *evMethod, res *core.FlowResult) {
 	guards := guardMap(fn)
 	domAll := func(at ssa.Instruction) bool {
 		for _, c := range append(append([]ssa.CallInstruction{}, m.A...), m.P...) {
-			if !core.Dominates(at, c) {
+			if !p.DominatesIn(fn, at, c) {
 				return false
 			}
 		}
@@ -526,8 +569,18 @@ func c08Validity(r *core.Run, m *evMethod, res *core.FlowResult) {
 				break
 			}
 		}
+		tbl, tblAt := reservedNameTable(p, fn)
 		for _, n := range reservedEventNames {
-			need(fmt.Sprintf("param:%s==%q", evParam, n), "reserved-name("+n+")")
+			key := fmt.Sprintf("param:%s==%q", evParam, n)
+			if _, direct := guards[key]; !direct && tbl[n] && tblAt != nil {
+				if domAll(tblAt) {
+					r.OK("O4", fname, "panics-on:reserved-name("+n+")", p.InstrPos(tblAt), "the name is a key of the reserved-name table whose hit edge only panics, before apply and publish")
+				} else {
+					r.Bad("O4", fname, "panics-on:reserved-name("+n+")", p.InstrPos(tblAt), "the reserved-name table lookup does not dominate the apply and the publish")
+				}
+				continue
+			}
+			need(key, "reserved-name("+n+")")
 		}
 		if at, ok := panicsUnlessCall(fn, "isValidPart"); ok && domAll(at) {
 			r.OK("O4", fname, "panics-on:malformed-name", p.InstrPos(at), "a name rejected by the token validator panics before apply and publish")
@@ -615,30 +668,19 @@ func c08EventFields(r *core.Run, m *evMethod) {
 		if len(m.A) != 1 {
 			return false
 		}
-		var chk func(v ssa.Value, d int) bool
-		chk = func(v ssa.Value, d int) bool {
-			if d > 5 {
+		// through phis and the results of private helpers: every non-nil source is result idx of the apply call
+		any := false
+		for _, lf := range valueLeaves(v, nil, 0) {
+			if c, ok := lf.V.(*ssa.Const); ok && c.IsNil() {
+				continue
+			}
+			ex, ok := lf.V.(*ssa.Extract)
+			if !ok || ex.Tuple != m.A[0].Value() || ex.Index != idx {
 				return false
 			}
-			switch x := v.(type) {
-			case *ssa.Extract:
-				return x.Tuple == m.A[0].Value() && x.Index == idx
-			case *ssa.Phi:
-				any := false
-				for _, e := range x.Edges {
-					if c, ok := e.(*ssa.Const); ok && c.IsNil() {
-						continue
-					}
-					if !chk(e, d+1) {
-						return false
-					}
-					any = true
-				}
-				return any
-			}
-			return false
+			any = true
 		}
-		return chk(v, 0)
+		return any
 	}
 	isParam := func(v ssa.Value) bool {
 		_, ok := core.Strip(v).(*ssa.Parameter)
@@ -668,4 +710,81 @@ func c08EventFields(r *core.Run, m *evMethod) {
 			r.Check(isParam(v), "O5", fname, "Event."+q.field+"<-argument", p.Pos(fn.Pos()), "flows from the method's own argument", "Event."+q.field+" is not the method's argument: "+valDesc(v))
 		}
 	}
+}
+
+// reservedNameTable recognises the table form of the reserved-name guard: in
+// fn or a helper it calls, a comma-ok lookup of the event-name argument in a
+// package-level map whose found edge only panics. It returns the table's
+// constant keys (read from the package initialiser) and the instruction in fn
+// that represents the guard.
+func reservedNameTable(p *core.Prog, fn *ssa.Function) (map[string]bool, ssa.Instruction) {
+	keys := map[string]bool{}
+	for _, f2 := range p.Helpers(fn) {
+		for _, b := range f2.Blocks {
+			iff, ok := b.Instrs[len(b.Instrs)-1].(*ssa.If)
+			if !ok {
+				continue
+			}
+			ex, ok := iff.Cond.(*ssa.Extract)
+			if !ok || ex.Index != 1 {
+				continue
+			}
+			lk, ok := ex.Tuple.(*ssa.Lookup)
+			if !ok || !lk.CommaOk {
+				continue
+			}
+			gname, isG := loadedGlobal(lk.X)
+			if !isG {
+				continue
+			}
+			// the key is the event-name argument
+			isArg := false
+			for _, kv := range paramArgs(p, lk.Index, 0) {
+				if prm, ok := kv.(*ssa.Parameter); ok && prm.Parent() == fn {
+					isArg = true
+				}
+			}
+			if !isArg {
+				continue
+			}
+			if okp, _ := edgeReachesOnlyPanic(b.Succs[0], func(ssa.Instruction) bool { return false }); !okp {
+				continue
+			}
+			// keys of the table from the package initialiser
+			ini := fn.Pkg.Func("init")
+			if ini == nil {
+				continue
+			}
+			for _, ib := range ini.Blocks {
+				for _, in := range ib.Instrs {
+					st, ok := in.(*ssa.Store)
+					if !ok {
+						continue
+					}
+					g, ok := st.Addr.(*ssa.Global)
+					if !ok || g.Name() != gname {
+						continue
+					}
+					mm := st.Val
+					for _, ib2 := range ini.Blocks {
+						for _, in2 := range ib2.Instrs {
+							if mu, ok := in2.(*ssa.MapUpdate); ok && mu.Map == mm {
+								if k, ok := core.ConstString(mu.Key); ok {
+									keys[k] = true
+								}
+							}
+						}
+					}
+				}
+			}
+			var at ssa.Instruction = iff
+			if f2 != fn {
+				if l := p.Lift(iff, fn); len(l) > 0 {
+					at = l[0]
+				}
+			}
+			return keys, at
+		}
+	}
+	return keys, nil
 }
